@@ -27,7 +27,8 @@ BOUND = {
 }
 TIME_CAP = {"quick": 240, "thorough": 3000}
 
-KINDS = ["f8", "i8", "u1", "b1", "str", "U", "D", "us", "ns", "td", "obj", "objb", "objs"]
+KINDS = ["f8", "i8", "u1", "b1", "str", "U", "D", "us", "ns", "td", "obj", "objb", "objs", "strz"]
+REAL_KIND = {"objb": "obj", "objs": "obj", "strz": "str"}
 METHODS = [("sort", 1), ("sort", -1), ("rank", "min"), ("rank", "max"), ("rank", "ordinal"), ("unique", None)]
 
 
@@ -36,6 +37,8 @@ def alpha_of(kind, tier):
         return [None, False, True]
     if kind == "objs":
         return [None, "None", "a"]  # the text 'None' is a value, not a missing value
+    if kind == "strz":
+        return [None, "a", "a\x00", "b"]  # strings that differ only in a trailing NUL (lost by fixed-width NumPy strings)
     return V.alphabet(kind, tier)
 
 
@@ -70,7 +73,7 @@ class _Proxy:
 
 def check_case(case, rec):
     kind, toks = case["kind"], case["toks"]
-    v = V.vector("obj" if kind in ("objb", "objs") else kind, toks)
+    v = V.vector(REAL_KIND.get(kind, kind), toks)
     check_on(v, kind, toks, case["methods"], rec, case)
 
 
@@ -175,8 +178,14 @@ def run_shard(shard, rec):
         it = ((alpha[shard["first"]],) + rest for rest in itertools.product(alpha, repeat=n - 1))
     methods = [list(m) for m in METHODS]
     for toks in it:
-        check_case({"kind": kind, "toks": list(toks), "methods": methods, "poke": True}, rec)
+        check_case({"kind": kind, "toks": list(toks), "methods": methods, "poke": kind != "strz"}, rec)
 
 
 def classify(v):
+    c = v.get("case") or {}
+    toks = c.get("toks") or []
+    if (c.get("kind") == "strz" and v["clause"] == "relation" and not c.get("poke")
+            and any(isinstance(t, str) and t.endswith("\x00") for t in toks) and "a" in toks):
+        # sort / rank / unique compare through a fixed-width cast, which drops trailing NULs: 'a' and 'a\x00' tie
+        return "string-differing-only-in-trailing-NUL"
     return None
